@@ -31,50 +31,64 @@ def write_bodies(F):
     return out
 
 
-def peel_ok(F, R):
-    """R-PEEL for push_symbols; returns True if the one pop is justified"""
-    bodies = [b for b in F.bodies.values() if b.kind == "Fn" and b.name == "push_symbols"]
-    if not bodies:
-        return False
-    b = bodies[0]
+def peel_ok(F, R, body=None):
+    """R-PEEL for the body that pops the trailing partial byte (push_symbols, or any body it was
+    inlined into / refactored into); returns True if every Vec::pop there is justified"""
+    if body is None:
+        bodies = [b for b in F.bodies.values() if b.kind in ("Fn", "AssocFn") and not b.in_tests() and
+                  any(callee_tag(t.get("callee")) == ("Vec", "pop") for (_, t) in b.calls()) and
+                  any(callee_tag(t.get("callee")) == ("Huffman", "encode") for (_, t) in b.calls())]
+        if not bodies:
+            return False
+        res = True
+        for b in bodies:
+            res = peel_ok(F, R, b) and res
+        return res
+    b = body
     R.saw(b)
     ctx = Ctx(b)
     pops = [(bi, t) for (bi, t) in b.calls() if callee_tag(t.get("callee")) == ("Vec", "pop")]
     encs = [(bi, t) for (bi, t) in b.calls() if callee_tag(t.get("callee")) == ("Huffman", "encode")]
     pushes = [(bi, t) for (bi, t) in b.calls() if callee_tag(t.get("callee")) == ("Vec", "push")]
-    ok_all = True
-    if len(pops) != 1 or len(encs) != 1:
-        R.check("R-PEEL", b.label(), False, construct="one pop and one encode call",
+    if not pops:
+        return True
+    if not encs:
+        R.check("R-PEEL", b.label(), False, construct="a pop without an encoder to re-present the byte to",
                 where=b.where(), detail="%d pops, %d encode calls" % (len(pops), len(encs)))
         return False
-    (pbi, pt) = pops[0]
-    (ebi, et) = encs[0]
-    vec = trees(ctx, ctx.org.operand(pt["args"][0]))
-    # (a) control dependence on "cursor not byte-aligned"
-    a_ok = False
-    for f in facts_at(ctx, pbi):
-        if f[0] in ("Ne", "Eq") and f[0] == "Ne":
-            x, y = f[1], f[2]
-            if y == ("const", "0") and x[0] == "bin" and x[1] == "Rem" and x[3] == ("const", "8"):
-                a_ok = True
-    R.check("R-PEEL", b.label(), a_ok, construct="pop only when cursor % 8 != 0",
-            where="%s:%s" % (b.file, pt["line"]),
-            detail="guards at pop: %s" % [(f[0], show(f[1]), show(f[2]) if isinstance(f[2], tuple) else f[2])
-                                          for f in facts_at(ctx, pbi)])
-    # (b) popped byte flows into `initially` of encode
-    init = operand_tree(ctx, et["args"][1]) if len(et["args"]) > 1 else ("opaque", "?")
-    b_ok = contains_call(init, ("Vec", "pop"), vec)
-    R.check("R-PEEL", b.label(), b_ok, construct="popped byte re-presented to the encoder",
-            where="%s:%s" % (b.file, et["line"]), detail="encode(initially = %s)" % show(init))
-    # (c) encoder output is pushed onto the same vector, after the pop
-    c_ok = False
-    for (qbi, qt) in pushes:
-        v2 = trees(ctx, ctx.org.operand(qt["args"][0]))
-        if v2 == vec and qbi in reach_strict(b, ebi) and pbi not in reach_strict(b, qbi):
-            c_ok = True
-    R.check("R-PEEL", b.label(), c_ok, construct="encoder output re-emitted onto the same vector",
-            where=b.where(), detail="%d Vec::push sites" % len(pushes))
-    return a_ok and b_ok and c_ok and ok_all
+    ok_all = True
+    for (pbi, pt) in pops:
+        vec = trees(ctx, ctx.org.operand(pt["args"][0]))
+        # (a) control dependence on "cursor not byte-aligned"
+        a_ok = False
+        for f in facts_at(ctx, pbi):
+            if f[0] == "Ne":
+                x, y = f[1], f[2]
+                if y == ("const", "0") and x[0] == "bin" and x[1] == "Rem" and x[3] == ("const", "8"):
+                    a_ok = True
+        R.check("R-PEEL", b.label(), a_ok, construct="pop only when cursor % 8 != 0",
+                where="%s:%s" % (b.file, pt["line"]),
+                detail="guards at pop: %s" % fmt_facts(facts_at(ctx, pbi)))
+        # (b) popped byte flows into `initially` of an encode call reachable from the pop
+        b_ok = False
+        c_ok = False
+        for (ebi, et) in encs:
+            if ebi not in reach_strict(b, pbi):
+                continue
+            init = operand_tree(ctx, et["args"][1]) if len(et["args"]) > 1 else ("opaque", "?")
+            if contains_call(init, ("Vec", "pop"), vec):
+                b_ok = True
+                # (c) encoder output is pushed onto the same vector, after the pop
+                for (qbi, qt) in pushes:
+                    v2 = trees(ctx, ctx.org.operand(qt["args"][0]))
+                    if v2 == vec and qbi in reach_strict(b, ebi) and pbi not in reach_strict(b, qbi):
+                        c_ok = True
+        R.check("R-PEEL", b.label(), b_ok, construct="popped byte re-presented to the encoder",
+                where="%s:%s" % (b.file, pt["line"]), detail="")
+        R.check("R-PEEL", b.label(), c_ok, construct="encoder output re-emitted onto the same vector",
+                where=b.where(), detail="%d Vec::push sites" % len(pushes))
+        ok_all = ok_all and a_ok and b_ok and c_ok
+    return ok_all
 
 
 def contains_call(t, tag, recv=None):
@@ -89,6 +103,7 @@ def contains_call(t, tag, recv=None):
 def r_append(F, R, cat=None, only=None):
     cat = cat or Catalogue(F)
     peel = None
+    peel_cache = {}
     nb = 0
     neff = 0
     for b in write_bodies(F):
@@ -126,9 +141,12 @@ def r_append(F, R, cat=None, only=None):
                         e.tag[0], e.tag[1], f or "self"))
                 if viol is None:
                     continue
-                if e.tag == ("Vec", "pop") and e.ctx.body.name == "push_symbols":
+                if e.tag == ("Vec", "pop") and any(
+                        callee_tag(t.get("callee")) == ("Huffman", "encode") for (_, t) in e.ctx.body.calls()):
+                    peel = peel_cache.get(e.ctx.body.key)
                     if peel is None:
-                        peel = peel_ok(F, R)
+                        peel = peel_ok(F, R, e.ctx.body)
+                        peel_cache[e.ctx.body.key] = peel
                     if peel:
                         continue
                     viol += " (R-PEEL does not hold)"
@@ -141,11 +159,6 @@ def r_append(F, R, cat=None, only=None):
                     detail="no destructive/clear/replace effect on item storage %s" % (
                         sorted(storage) if storage is not None else "(self)"),
                     nontrivial=True)
-    if peel is None:
-        # push_symbols exists but no pop was attributed: still evaluate R-PEEL if there is a pop
-        bodies = [b for b in F.bodies.values() if b.kind == "Fn" and b.name == "push_symbols"]
-        if bodies and any(callee_tag(t.get("callee")) == ("Vec", "pop") for (_, t) in bodies[0].calls()):
-            peel_ok(F, R)
     R.floor("R-APPEND", "write/reserve bodies", nb, 100 if not only else 5)
     R.extra["effects_on_item_storage_inspected"] = R.extra.get("effects_on_item_storage_inspected", 0) + neff
 
